@@ -224,6 +224,15 @@ func c18Units(ctx *core.Ctx) []core.Unit {
 					pw = ipa.NewPrecomputedWeights()
 				}
 				hist := ""
+				if seq%9 == 4 {
+					// a call that cannot succeed comes first: the vector ends right after the division index (the
+					// caller recovers from whatever that call does)
+					func() {
+						defer func() { recover() }()
+						pw.DivideOnDomain(uint8(idx[seq%3]), fv[:idx[seq%3]+2])
+					}()
+					hist = fmt.Sprintf("[DivideOnDomain(%d, vector of %d values) recovered] ", idx[seq%3], idx[seq%3]+2)
+				}
 				for step, s := 0, seq; step < 5; step, s = step+1, s/3 {
 					k := idx[s%3]
 					hist += fmt.Sprint(k, " ")
